@@ -222,7 +222,10 @@ def gensym_facts(sym, stateh):
     ok = False
     for kind, cond, text in _loops(b):
         inner = text
-        if re.search(probe, inner) and re.search(r"\bstatus\b", cond) and not re.search(r"!\s*status\b", cond) and re.search(r"\binc_gensym\s*\(\s*\)", inner):
+        by_cond = re.search(r"\bstatus\b", cond) and not re.search(r"!\s*status\b", cond)
+        # `for (;;) { probe; if (!status) break; inc_gensym(); }` / `while (1) { … }`: the exit test is a break on a failed probe
+        by_break = re.sub(r"\s+", "", cond) in ("", ";;", "1") and re.search(r"if\s*\(\s*(!\s*status|status\s*==\s*0|0\s*==\s*status)\s*\)\s*\{?\s*break\s*;", inner)
+        if re.search(probe, inner) and (by_cond or by_break) and re.search(r"\binc_gensym\s*\(\s*\)", inner):
             # every probe of the counter must be inside this loop, except a first probe in front of a `while (status) { inc; probe }`
             outside = len(re.findall(probe, b.replace(text, "", 1)))
             if outside == 0 or (kind == "while" and outside == 1):
